@@ -410,8 +410,11 @@ def run_task(task):
             c[f"knob:control:blocked={int(scn['blocked'])},cfg={'packaged' if scn['config'] == 'packaged' else 'generated'}"] += 1
             if n >= 100:
                 c["probe:control_file_with_100plus_records"] += 1
-            if wr is not None and any(len(r) == scn["knobs"]["MAX_VBS_RECORD_LENGTH"] for r in pipeline.asked_records(scn)):
-                c["probe:control_message_of_exactly_the_maximum_record_length"] += 1
+            try:
+                if wr is not None and any(len(r) == scn["knobs"]["MAX_VBS_RECORD_LENGTH"] for r in pipeline.asked_records(scn)):
+                    c["probe:control_message_of_exactly_the_maximum_record_length"] += 1
+            except Exception:
+                pass      # the encoder refused a message: already a control-arm verdict above
             if len(wr.image) > 20 * 1014:
                 c["probe:control_file_over_20_blocks"] += 1
             if n >= 2 or len(wr.image) > 1014:
